@@ -67,6 +67,7 @@ def run(ctx: Ctx, rep: Report) -> None:
     from ..rules.undo import rule_undo
     rule_undo(ctx, rep, ('bqskit/passes/mapping/',), 1)
     swap_radix(ctx, rep)
+    visited(ctx, rep)
     g = ctx.cls('bqskit/qis/graph.py:CouplingGraph')
     hashrule.rule_hash(ctx, rep, [g])
 
@@ -593,6 +594,85 @@ def publish(ctx: Ctx, rep: Report) -> None:
         'Circuit(model.num_qudits, model.radixes)', key='embed',
     )
     _ = AnalysisError
+
+
+def visited(ctx: Ctx, rep: Report) -> None:
+    """VISITED: a worklist search over a DAG or graph queues a node once.
+    A `while` loop that pops from a *list* and grows the same list with the
+    successors of the popped node filters them against what it has seen (a
+    membership test or a set difference inside the loop); without the filter
+    a node is expanded once per path leading to it - exponentially often on
+    a ladder-shaped circuit (SABRE's look-ahead, F53).  Worklists that are
+    sets cannot hold duplicates and are not instances."""
+    R = 'VISITED'
+    n = 0
+    for f in ctx.index.all_functions():
+        if not f.path.startswith(('bqskit/passes/mapping/', 'bqskit/qis/',
+                                  'bqskit/ir/circuit.py')):
+            continue
+        for w in [x for x in ast.walk(f.node) if isinstance(x, ast.While)]:
+            pops = [
+                c for c in ast.walk(w) if isinstance(c, ast.Call)
+                and isinstance(c.func, ast.Attribute)
+                and c.func.attr == 'pop' and isinstance(
+                    c.func.value, ast.Name)
+            ]
+            for pc in pops:
+                L = pc.func.value.id
+                grows = [
+                    c for c in ast.walk(w) if isinstance(c, ast.Call)
+                    and isinstance(c.func, ast.Attribute)
+                    and c.func.attr in ('extend', 'append', 'insert')
+                    and isinstance(c.func.value, ast.Name)
+                    and c.func.value.id == L
+                ]
+                if not grows:
+                    continue
+                n += 1
+                rep.count()
+                rep.seen(f.qualname)
+                # the growth is conditional: a membership test, or the
+                # parent exclusion of a tree walk (`neighbor != parent`)
+                member = any(
+                    isinstance(k, ast.If) and any(
+                        x is g0 for g0 in grows for x in ast.walk(k))
+                    for k in ast.walk(w)
+                ) or any(
+                    isinstance(k, (ast.ListComp, ast.GeneratorExp, ast.SetComp))
+                    and any(gen.ifs for gen in k.generators)
+                    and any(k is y for g0 in grows for y in ast.walk(g0))
+                    for k in ast.walk(w)
+                ) or any(
+                    # `if x in seen: continue` before the growth
+                    isinstance(k, ast.Compare) and any(
+                        isinstance(o, (ast.In, ast.NotIn)) for o in k.ops)
+                    for k in ast.walk(w)
+                )
+                setdiff = any(
+                    isinstance(k, ast.BinOp) and isinstance(k.op, ast.Sub)
+                    and any(isinstance(x, ast.Name) and (
+                        'seen' in x.id or 'visit' in x.id)
+                        for x in ast.walk(k))
+                    for k in ast.walk(w)
+                ) or any(
+                    isinstance(k, ast.Call) and isinstance(
+                        k.func, ast.Attribute) and k.func.attr in (
+                            'difference', 'difference_update')
+                    for k in ast.walk(w)
+                )
+                rep.check(
+                    member or setdiff, R,
+                    (f.cls.name + '.' if f.cls is not None else '')
+                    + f.name + ':' + L, f.path, w.lineno,
+                    f'the worklist `{L}` is grown with filtered successors',
+                    f'{f.qualname}: the worklist `{L}` is popped and grown '
+                    f'with `{norm(grows[0])[:50]}` with no membership test or '
+                    'set difference anywhere in the loop: a node reachable '
+                    'along k paths is expanded k times (exponential on '
+                    'ladder-shaped circuits)',
+                    key='unfiltered',
+                )
+    rep.floor(R, n, 2, 'list-based worklist loops')
 
 
 def swap_radix(ctx: Ctx, rep: Report) -> None:
